@@ -272,10 +272,24 @@ def run_history(scn):
     res.facts = {}
     root = tempfile.mkdtemp(prefix='c14-', dir=driver.scratch_root())
     try:
-        _run_history(scn, sim, res, root)
+        with driver.watchdog(WATCHDOG):
+            _run_history(scn, sim, res, root)
+    except driver.RunHung:
+        _hung(res)
     finally:
         shutil.rmtree(root, ignore_errors=True)
     return res
+
+
+WATCHDOG = 30      # seconds of real time for one history (typical: 10 ms)
+
+
+def _hung(res):
+    '''A read or a write that never comes back (a retry loop on a file that
+    will never be complete, say): neither "ignored or rejected" nor served.'''
+    res.sim.outcome = ('wall-timeout', None)
+    res.violations.append(('hang', 'did-not-terminate',
+                           {'watchdog_s': WATCHDOG}))
 
 
 def _fact(res, name, n=1):
@@ -515,6 +529,8 @@ def _run_history(scn, sim, res, root):
                 try:
                     got = common.read_env(root=root, names=names,
                                           filename=FILENAME, fmt='pickle')
+                except driver.RunHung:
+                    raise
                 except BaseException as exc:  # noqa
                     _viol(res, 'read-raised',
                           'read_env-raised:%s' % type(exc).__name__,
@@ -687,6 +703,8 @@ def _whole_roundtrip(scn, sim, res, opno, op, root):
         _fact(res, 'whole-env-truncated')
     try:
         back = env_mod.Env.from_file(path)
+    except driver.RunHung:
+        raise
     except BaseException as exc:  # noqa
         _viol(res, 'read-raised', 'from_file-raised:%s' % type(exc).__name__,
               {'op': opno, 'cut': cut, 'exception': repr(exc)[:200]})
@@ -725,10 +743,13 @@ def read_prefix(scn):
         tsk = scn['task']
         ent = gen_entry(tsk, scn['version'], 'DONE', root)
         blob = _blob(mods()['env'], tsk['name'], ent)
-        viol = _check_damaged(root, tsk['name'], blob, scn['how'],
-                              scn.get('cut', 0))
+        with driver.watchdog(WATCHDOG):
+            viol = _check_damaged(root, tsk['name'], blob, scn['how'],
+                                  scn.get('cut', 0))
         sim.event('prefix', scn['how'], scn.get('cut'), len(blob))
         res.violations.extend(viol)
+    except driver.RunHung:
+        _hung(res)
     finally:
         shutil.rmtree(root, ignore_errors=True)
     return res
@@ -760,6 +781,8 @@ def _check_damaged(root, name, blob, how, cut):
     detail = {'how': how, 'cut': cut, 'size': len(blob), 'task': name}
     try:
         back = env_mod.Env.from_file(path)
+    except driver.RunHung:
+        raise
     except BaseException as exc:  # noqa
         viol.append(('read-raised',
                      'from_file-raised:%s' % type(exc).__name__,
@@ -772,6 +795,8 @@ def _check_damaged(root, name, blob, how, cut):
     try:
         got = common.read_env(root=root, names=[name], filename=FILENAME,
                               fmt='pickle')
+    except driver.RunHung:
+        raise
     except BaseException as exc:  # noqa
         viol.append(('read-raised',
                      'read_env-raised:%s' % type(exc).__name__,
@@ -797,8 +822,14 @@ def enum_shard(shard):
         points = shard['points']
         for how, cut in points:
             out['evaluations'] += 1
-            for cls, sig, detail in _check_damaged(root, tsk['name'], blob,
-                                                   how, cut):
+            try:
+                with driver.watchdog(WATCHDOG):
+                    viols = _check_damaged(root, tsk['name'], blob, how, cut)
+            except driver.RunHung:
+                viols = [('hang', 'did-not-terminate',
+                          {'watchdog_s': WATCHDOG, 'how': how, 'cut': cut})]
+                out['hung'] = True      # (the shard stops after this one)
+            for cls, sig, detail in viols:
                 lst = out['violations'].setdefault(sig, [])
                 if len(lst) < 2:
                     scn = {'kind': 'prefix', 'task': tsk,
@@ -809,6 +840,8 @@ def enum_shard(shard):
                                 'preempts': [], 'digest': None,
                                 'seed': shard['seed'], 'run_no': -1,
                                 'policy': 'enumeration'})
+            if out.get('hung'):
+                break
     finally:
         shutil.rmtree(root, ignore_errors=True)
     return out
